@@ -246,6 +246,19 @@ fn main() {
             }
             ["sq", rest @ ..] => sq_op(rest),
             ["rct", rest @ ..] => rct_op(rest),
+            // sop <op> <a> <b> <c>: the scalar sample operation on i16 and on i32 samples
+            ["sop", op, a, b, c] => (|| {
+                let (a, b, c) = (a.parse::<i64>().ok()?, b.parse::<i64>().ok()?, c.parse::<i64>().ok()?);
+                let op = op.to_string();
+                Some(catch(move || {
+                    let n = jxl_modular::verif::sample_op::<i16>(&op, a, b, c);
+                    let w = jxl_modular::verif::sample_op::<i32>(&op, a, b, c);
+                    match (n, w) {
+                        (Some(n), Some(w)) => format!("ok {} {}", n, w),
+                        _ => "bad-op".to_string(),
+                    }
+                }))
+            })(),
             ["tend", a, b, c] => (|| {
                 let (a, b, c) = (a.parse::<i64>().ok()?, b.parse::<i64>().ok()?, c.parse::<i64>().ok()?);
                 if [a, b, c].iter().any(|v| *v < -32768 || *v > 32767) {
